@@ -100,6 +100,7 @@ fn c04() -> Outcome {
         let k = 1 + r.below(3); let mut map: HashMap<u64, Function> = HashMap::new();
         for _ in 0..k { let id = r.pick(&IDS); map.insert(id, rand_function(&mut r, &IDS, 2, false)); }
         if n == 3 { note(|| format!("random: substitute {map:?} into {f:?}")); }
+        trace(|| format!("Function::substitute f={f:?} with {map:?}"));
         let g = match f.substitute(&map) { Ok(g) => g, Err(e) => fail!(n, "Function::substitute failed ({e}): f={f:?} map={map:?}") };
         for _ in 0..3 {
             let s = rand_state(&mut r, &IDS);
